@@ -332,9 +332,9 @@ func genWorkload(r *rand.Rand, cc caseCfg, tags []*tagT, hist string) *workload 
 			name, keys = n, []string{k}
 			args = append([][]byte{b(k)}, rest...)
 		}
-		nk := 16
+		nk := 19
 		if cc.MultiKey {
-			nk = 20
+			nk = 23
 		}
 		switch r.Intn(nk) {
 		case 0, 1:
@@ -363,7 +363,15 @@ func genWorkload(r *rand.Rand, cc caseCfg, tags []*tagT, hist string) *workload 
 			one("zadd", t.key("z"), b("1.5"), idv)
 		case 15:
 			one("zrem", t.key("z"), idv)
-		case 16, 17:
+		// writes whose reply is legally the null bulk ($-1): a SET NX that does not apply, GETSET
+		// and SET … GET on a key that does not exist (yet)
+		case 16:
+			one("set", t.key("s1"), idv, b("NX"))
+		case 17:
+			one("getset", t.key("s2"), idv)
+		case 18:
+			one("set", t.key("s2"), idv, b("GET"))
+		case 19, 20:
 			name = "mset"
 			keys = []string{t.key("s1"), t.key("s2")}
 			args = [][]byte{b(keys[0]), idv, b(keys[1]), b("w")}
@@ -1245,7 +1253,7 @@ func oneCase(run *harness.Run, key string, idx int, r *rand.Rand, cc caseCfg) {
 	posOf := map[string][]seen{}
 	idCount := map[string]int{}
 	nodesUsed := map[int]bool{}
-	nBiz := 0
+	nBiz, nilReplies := 0, 0
 	for _, a := range apps {
 		if !a.Write || (len(a.Args) > 0 && drive.Reserved(a.Args[0])) {
 			continue
@@ -1261,6 +1269,9 @@ func oneCase(run *harness.Run, key string, idx int, r *rand.Rand, cc caseCfg) {
 			return
 		}
 		nBiz++
+		if a.Reply == nil {
+			nilReplies++
+		}
 		idCount[id]++
 		nodesUsed[a.Node] = true
 		for _, k := range x.keys {
@@ -1504,6 +1515,7 @@ func oneCase(run *harness.Run, key string, idx int, r *rand.Rand, cc caseCfg) {
 	}
 	run.Count("business_writes_in_streams", int64(len(w.writes)))
 	run.Count("business_applications_observed", int64(nBiz))
+	run.Count("business_applications_answered_null_bulk", int64(nilReplies))
 	run.Count("ids_applied_more_than_once", int64(dups))
 	run.Count("per_key_sequences_checked", int64(keysChecked))
 	run.Count("topology_events_fired", int64(len(cl.Events())))
